@@ -94,9 +94,11 @@ func (fs *filestore) Add(bucket string, filename string, contents []byte, meta *
 		return fmt.Errorf("could not write:  %s: %w", f, err)
 	}
 
+	simYield("fs.add.content")
 	// Force a new modification time, since this is what Generation is based on.
-	now := time.Now().UTC()
+	now := timeNow().UTC()
 	_ = os.Chtimes(f, now, now)
+	simYield("fs.add.mtime")
 
 	InitScrubbedMeta(meta, filename)
 	meta.Metageneration = 1
@@ -168,6 +170,7 @@ func (fs *filestore) Delete(bucket string, filename string) error {
 		if err := os.Remove(f); err != nil {
 			return err
 		}
+		simYield("fs.delete.content")
 		err := os.Remove(metaFilename(f))
 		if os.IsNotExist(err) {
 			// Legacy files do not have an accompanying metadata file.
